@@ -348,18 +348,29 @@ def rule_r5(ctx):
             ctx.r.violation(rid, key_of(f, None, "quoted-string::" + d["side"]), "undquote's validation %s-accepts: %r (%s)" % (d["side"], d["witness"], "accepted though not a quoted-string" if d["side"] == "over" else "refused though a quoted-string"), f.loc(n.ast),
                             {"witness": repr(d["witness"])})
         # the unquoting is guarded by the match
-        unq = [m for m in g.nodes if m.kind == "stmt" and isinstance(m.ast, ast.Assign) and isinstance(m.ast.value, ast.Subscript) and norm(m.ast.value.slice) == "1:-1"]
+        unq = [m for m in g.nodes if m.kind in ("stmt",) and m.ast is not None and any(isinstance(x, ast.Subscript) and isinstance(x.ctx, ast.Load) and norm(x.slice) == "1:-1" for x in ast.walk(m.ast))]
         for m in unq:
             if mvar and any(pol and dotted(t) == mvar for (t, pol) in guards_of(g, m)):
                 ctx.r.ok(rid, "quotes removed only after validation", f.loc(m.ast))
             else:
                 ctx.r.violation(rid, key_of(f, None, "unquote-unvalidated"), "the DQUOTEs are removed without the validation having succeeded", f.loc(m.ast))
-    # fall-through raises
-    last = f.node.body[-1]
-    if isinstance(last, ast.Raise):
-        ctx.r.ok(rid, "anything else (one-sided quotes, failed validation) raises ValueError", f.loc(last))
+    # every normal end of undquote is either the unchanged value (no DQUOTE at either end) or the validated, unquoted
+    # value; everything else (one-sided quotes, failed validation) leaves by raising
+    mvars = {n.ast.targets[0].id for n, c in calls if isinstance(n.ast, ast.Assign) and isinstance(n.ast.targets[0], ast.Name)}
+    allrets = [m for m in g.nodes if m.kind == "stmt" and isinstance(m.ast, ast.Return)]
+    stray = []
+    for m in allrets:
+        gs = guards_of(g, m)
+        is_plain = dotted(m.ast.value) == f.params[0] and any((not pol) and isinstance(t, ast.Call) and isinstance(t.func, ast.Attribute) and t.func.attr == "startswith" for (t, pol) in gs) \
+            and any((not pol) and isinstance(t, ast.Call) and isinstance(t.func, ast.Attribute) and t.func.attr == "endswith" for (t, pol) in gs)
+        is_validated = any(pol and dotted(t) in mvars for (t, pol) in gs)
+        if not (is_plain or is_validated):
+            stray.append(m)
+    falls_off = g.path(g.entry, g.exit, avoid=allrets, follow_exc=False) is not None
+    if not stray and not falls_off:
+        ctx.r.ok(rid, "anything else (one-sided quotes, failed validation) raises ValueError", f.loc())
     else:
-        ctx.r.violation(rid, key_of(f, None, "no-fallthrough-raise"), "undquote does not raise for one-sided quotes / failed validation", f.loc())
+        ctx.r.violation(rid, key_of(f, None, "no-fallthrough-raise"), "undquote does not raise for one-sided quotes / failed validation", f.loc(stray[0].ast) if stray else f.loc())
     rets = [m for m in g.nodes if m.kind == "stmt" and isinstance(m.ast, ast.Return) and dotted(m.ast.value) == f.params[0]]
     plain = [m for m in rets if any((not pol) and isinstance(t, ast.Call) and isinstance(t.func, ast.Attribute) and t.func.attr == "startswith" for (t, pol) in guards_of(g, m))
              and any((not pol) and isinstance(t, ast.Call) and isinstance(t.func, ast.Attribute) and t.func.attr == "endswith" for (t, pol) in guards_of(g, m))]
